@@ -118,7 +118,23 @@ void bad_self_chain(long double *a, long double *b, long double c) {
   *a = *b = c;
 }
 
+// R12.13: the upper 6 bytes of the 16-byte slot are never written
+void bad_union_pun(long double v) {
+  union { long double f; unsigned long w[2]; } u;
+  u.f = v;
+  println("  .quad %lu", u.w[0]);
+  println("  .quad %lu", u.w[1]);
+}
+
 // ---- must stay silent
+void good_union_pun(long double v, double d) {
+  union { long double f; unsigned long w[2]; } u;
+  memset(&u, 0, sizeof(u));
+  u.f = v;
+  println("  .quad %lu", u.w[1]);
+  union { double f; unsigned long w; } e = { d };
+  println("  .quad %lu", e.w);
+}
 void good_ld_assign(long double *a, long double c) {
   *a = c;
   if (c)
